@@ -1191,17 +1191,28 @@ func checkC19(rc *RunCtx, in *minInst, r *minRun, nTasks int) *Violation {
 			return &Violation{prop, "minimize/error-status", fmt.Sprintf("%s: error %v returned with status %v, want Failure", name, err, res.Status)}
 		}
 	}
-	// an injected Recorder / writer failure must come back as an error
-	// (single-task runs only: with several tasks the first terminal condition
-	// wins, and a Record call for an evaluation that was still in flight may
-	// fail after the run has already been stopped by something else)
+	// An injected Recorder failure must come back as an error unless the run
+	// had already been stopped by something else (the first terminal
+	// condition wins; Record is still called for tasks that arrive later and
+	// its error is then dropped). Decidable from outside when the returned
+	// status names a limit: if that limit was not yet reached in the Stats
+	// handed to the failing Record call, the failure came first.
 	rc.oracle("callback-error-reported")
-	if err == nil && nTasks == 1 {
-		if r.rec != nil && r.rec.failed > 0 {
-			return &Violation{prop, "minimize/recorder-error-swallowed", fmt.Sprintf("%s: Recorder.Record returned an error at call %d but Minimize returned err=nil (status %v)", name, r.rec.failed, res.Status)}
+	if err == nil && r.rec != nil && r.rec.failed > 0 && r.rec.failed <= len(r.rec.entries) {
+		at := r.rec.entries[r.rec.failed-1].stats
+		reached := true
+		switch res.Status {
+		case optimize.FunctionEvaluationLimit:
+			reached = at.FuncEvaluations >= in.set.FuncEvaluations
+		case optimize.GradientEvaluationLimit:
+			reached = at.GradEvaluations >= in.set.GradEvaluations
+		case optimize.HessianEvaluationLimit:
+			reached = at.HessEvaluations >= in.set.HessEvaluations
+		case optimize.IterationLimit:
+			reached = at.MajorIterations >= in.set.MajorIterations
 		}
-		if r.wr != nil && r.wr.failed {
-			return &Violation{prop, "minimize/recorder-error-swallowed", fmt.Sprintf("%s: the Printer's writer failed at write %d but Minimize returned err=nil (status %v)", name, r.wr.failAt, res.Status)}
+		if !reached {
+			return &Violation{prop, "minimize/recorder-error-swallowed", fmt.Sprintf("%s: Recorder.Record failed at call %d, when the Stats were %+v, yet Minimize returned err=nil with status %v, a limit that had not been reached at that moment", name, r.rec.failed, at, res.Status)}
 		}
 	}
 	// Stats.Runtime is the simulated time the call took
